@@ -144,7 +144,7 @@ fn parse_contracts(dir: &str) -> Contracts {
                     let q = rest.trim();
                     assert!(q.starts_with('"') && q.ends_with('"'), "{fname}: anchor prefix must be quoted: {t}");
                     a.prefix = norm(&q[1..q.len() - 1]);
-                } else if a.pos != "start" {
+                } else if a.pos != "start" && a.pos != "tail" {
                     panic!("{fname}: bad anchor {t}");
                 }
                 let f = c.fns.get_mut(&k).unwrap();
@@ -960,6 +960,23 @@ impl<'a> Planter<'a> {
                         let m: Stmt = parse_quote!(vp_proof!(#gid););
                         block.stmts.insert(0, m);
                         true
+                    }
+                    "tail" => {
+                        // N14: bind the tail expression to a fresh variable so that a hint can mention the result
+                        match block.stmts.pop() {
+                            Some(Stmt::Expr(e, None)) => {
+                                block.stmts.push(parse_quote!(let vp_tail = #e;));
+                                block.stmts.push(parse_quote!(vp_proof!(#gid);));
+                                block.stmts.push(Stmt::Expr(parse_quote!(vp_tail), None));
+                                self.log.push(format!("N14 tail expression of {} bound to `vp_tail`", key));
+                                true
+                            }
+                            Some(other) => {
+                                block.stmts.push(other);
+                                false
+                            }
+                            None => false,
+                        }
                     }
                     "loopstart" | "loopend" => {
                         let mut ap = LoopAnchor { ord: 0, target: a.nth, end: a.pos == "loopend", gid, done: false };
